@@ -235,3 +235,30 @@ func KnobDefault(name string) (int, bool) {
 	}
 	return k.def, true
 }
+
+// ---------------------------------------------------------------- the number of CPUs
+
+// cpus is what the rewritten package is told when it asks runtime.GOMAXPROCS(0) / runtime.NumCPU(): an answer of the
+// environment that the harness fixes per exploration (the cooperative scheduler runs one goroutine at a time whatever
+// the answer, so the answer is observable only through what the code does with it).
+var cpus = 4
+
+// SetCPUs fixes the answer (n <= 0: back to the default 4).
+func SetCPUs(n int) {
+	if n <= 0 {
+		n = 4
+	}
+	cpus = n
+}
+
+// GOMAXPROCS stands in for runtime.GOMAXPROCS: a positive argument changes the answer, as the real one does.
+func GOMAXPROCS(n int) int {
+	old := cpus
+	if n > 0 {
+		cpus = n
+	}
+	return old
+}
+
+// NumCPU stands in for runtime.NumCPU.
+func NumCPU() int { return cpus }
